@@ -225,6 +225,12 @@ func (d *badgerNodeDB) cleanMultipartLocked(removeNodes bool) error {
 		// No multipart in progress, but it's not an error to call in a situation like this.
 		return nil
 	}
+	if lastFinalizedVersion, ok := d.meta.getLastFinalizedVersion(); ok && lastFinalizedVersion >= version {
+		// The multipart version has already been finalized (e.g. Finalize was interrupted
+		// right before its own cleanup), so the restored nodes are live and only the
+		// restore log needs to be removed.
+		removeNodes = false
+	}
 
 	txn := d.db.NewTransactionAt(tsMetadata, false)
 	defer txn.Discard()
